@@ -85,7 +85,7 @@ META = {
             "ToQueryString -> AddParamsFromQuery (decoded_reencodes for the model, all inputs); tied to the real function by typed `aq` cases (accepted sets are re-encoded and decoded again by the real code). api/util.go PeersToStrings/StringsToPeers: round trip = the list without empty IDs "
             "(identity on defined IDs, full statement refuted), re-encoding of any decoded list is stable; tied by `str p2s/s2p` cases. Round 8c: the msgpack envelope of the state dump (dsstate serialEntry stream, ugorji legacy-raw forms) at the byte level - a token reader for every msgpack head byte, the entry decoder (k/v by name, later wins, unknown fields skipped with nested values, nil entry) and State.Unmarshal over a store "
             "(first entry decoded before the store is touched: a key-less first entry keeps the store, proved for all stores and streams; an empty stream empties it; a stream that ends inside its first entry empties it WITHOUT error and one cut later restores a prefix without error - the wanted statement 'a cut stream is refused' is refuted with a witness); "
-            "fixraw and length-byte round trips for all values; the whole-snapshot round trip is a named unproved Prop, evaluated on every mpenc case; tied byte for byte to the real Marshal and, on structure-aware variants and cuts, to the real Unmarshal (`mpenc`/`mpdec`). (L3) every run drives the real "
+            "fixraw, raw16 and raw32 token round trips for all byte strings below 2^32 bytes, the entry round trip for all entries and continuations, and the whole-snapshot round trip (`mp_snapshot_roundtrip_full`: Unmarshal(Marshal es) = putAll [] es for every entry list with non-empty keys, any old store) PROVED by induction over the entry list (the variant without the non-empty-key hypothesis refuted with a witness); also evaluated on every mpenc case; tied byte for byte to the real Marshal and, on structure-aware variants and cuts, to the real Unmarshal (`mpenc`/`mpdec`). (L3) every run drives the real "
             "encoders and decoders on all 23 record types x formats and compares, field by field with the harness's own dumper, against the model's "
             "prediction and against the property's comparison.",
     "note": "Decoder robustness of the library decoders is search only (mutated encodings + random bytes under recover; per-type distribution in the arm histogram); "
